@@ -309,10 +309,10 @@ _STUBS = ["stub tags exposing only `extension` / `short_base_tag` (and a constan
 
 HARNESSES = [
     R.H("onset_step", _T_STEP,
-        quick=R.tier(cells=R.int_cells("VP_KIND", 0, 2), env={"VP_N": 2}, timeout=200,
+        quick=R.tier(cells=R.int_cells("VP_KIND", 0, 2), env={"VP_N": 2}, timeout=300,
                      bound="pre-state: 2 other names (each open or not), marker of any kind; all three names "
                            "any printable-ASCII text of 0..2 characters"),
-        thorough=R.tier(cells=R.int_cells("VP_KIND", 0, 2), env={"VP_N": 4}, timeout=1100, path_timeout=60,
+        thorough=R.tier(cells=R.int_cells("VP_KIND", 0, 2), env={"VP_N": 4}, timeout=2400, path_timeout=60,
                         bound="as quick with names of 0..4 printable-ASCII characters (covers a/1, ab/1, a/12)"),
         what="one marker from an arbitrary open-scope state: unmatched (exactly one TEMPORAL_TAG_ERROR) iff the name is not open case-insensitively; Onset opens/restarts, Offset closes, Inset keeps; "
              "all other scopes unchanged; keys stay case-folded",
@@ -322,12 +322,12 @@ HARNESSES = [
                 "the effect on any one other key is what is asserted)"),
     R.H("onset_time_point", _T_TP,
         quick=R.tier(cells=_TP_CELLS,
-                     env={"VP_N": 2}, timeout=300,
+                     env={"VP_N": 2}, timeout=400,
                      bound="one time point with 0..2 temporal groups (each with or without a Def tag), any kinds, "
                            "from a state with one other name open or not; names any printable-ASCII text of "
                            "0..2 characters"),
         thorough=R.tier(cells=_TP_CELLS,
-                        env={"VP_N": 4}, timeout=1100, path_timeout=60,
+                        env={"VP_N": 4}, timeout=2400, path_timeout=60,
                         bound="as quick with names of 0..4 printable-ASCII characters"),
         what="markers of one time point act in order like single steps; a name already used in the time point "
              "gives one TEMPORAL_TAG_ERROR per extra use and no state change; groups without a Def are skipped; "
@@ -340,13 +340,13 @@ HARNESSES = [
     R.H("onset_time_point_parsed", _T_TP + ["hed.models.hed_string.HedString.find_top_level_tags",
                                             "hed.models.hed_group.HedGroup.find_def_tags"],
         quick=R.tier(cells=R.product_cells(R.int_cells("VP_KIND", 0, 2), R.int_cells("VP_KINDB", 0, 2)),
-                     env={"VP_N": 2}, timeout=300,
+                     env={"VP_N": 1}, timeout=300,
                      bound="the string '<G1>, A, <G2>' with Gi = (Def/<name>, <kind>) or ((Def-expand/<name>, (B)), "
                            "<kind>), any two kinds, from a state with one other name open or not; names any "
-                           "printable-ASCII text of 0..2 characters"),
+                           "printable-ASCII text of 0..1 characters"),
         thorough=R.tier(cells=R.product_cells(R.int_cells("VP_KIND", 0, 2), R.int_cells("VP_KINDB", 0, 2)),
-                        env={"VP_N": 4}, timeout=1800, path_timeout=60,
-                        bound="as quick with names of 0..4 printable-ASCII characters"),
+                        env={"VP_N": 3}, timeout=2400, path_timeout=60,
+                        bound="as quick with names of 0..3 printable-ASCII characters"),
         what="as onset_time_point, but the (marker, group) pairs and the Def tags are found by the real "
              "HedString.find_top_level_tags / HedGroup.find_def_tags on a really parsed two-group string",
         oracle="models/onset_ref.py time_point()",
@@ -356,13 +356,13 @@ HARNESSES = [
         outside="other group contents; more than two temporal groups; construction of time points from rows"),
     R.H("onset_group_shape", _T_SHAPE,
         quick=R.tier(cells=R.product_cells(R.int_cells("VP_KIND", 0, 2), R.int_cells("VP_NDEFS", 0, 2)),
-                     env={"VP_M": 2}, timeout=150,
+                     env={"VP_M": 2}, timeout=300,
                      bound="one top-level temporal group: marker kind x {0,1,2 Def tags, first as Def or Def-expand "
                            "group} x {0,1,2 other inner groups} x {0,1,2 other tags} x {Delay or not}; first Def's "
                            "name any well-formed printable-ASCII text of 1..2 characters",
                      ),
         thorough=R.tier(cells=R.product_cells(R.int_cells("VP_KIND", 0, 2), R.int_cells("VP_NDEFS", 0, 2)),
-                        env={"VP_M": 4}, timeout=1100, path_timeout=60,
+                        env={"VP_M": 4}, timeout=2400, path_timeout=60,
                         bound="as quick with definition-name text of 1..4 characters (covers x/1, y/12, ab/1)"),
         what="validate_onset_offset accepts the group (no issue) iff it has exactly one Def/Def-expand, at most "
              "one other child for Onset/Inset and none for Offset (Delay not counted), that child is a group, the "
